@@ -371,6 +371,11 @@ def function(draw, lang, fid, name, cls=None, kind="func", max_params=3, for_for
                     if -1 not in v:
                         v[len(v) // 2] = -1.0 if p["T"] in FLT_TYPES else -1
                     break
+        # a 64-bit integer beyond the 53 bits a double holds exactly, in one call of every 64-bit scalar input
+        if p["row"] == "N1" and p["T"] in INT_TYPES and INT_TYPES[p["T"]][2] == 64 and not p.get("enum") and f["calls"]:
+            c = f["calls"][-1]
+            if isinstance(c["inputs"].get(p["name"]), int) and abs(c["inputs"][p["name"]]) < (1 << 53):
+                c["inputs"][p["name"]] = (1 << 53) + 1
     return f
 
 
